@@ -102,8 +102,18 @@ func (w *World) rulesRating(out *[]Obligation) {
 			tv := p.Info.Types[other]
 			v, ok := constVal(tv)
 			if !ok || (v.K != VRat && v.K != VInt) {
+				// a threshold read from a package-level table of constants
+				// (directly or through a range variable over it): every
+				// numeric leaf of that table is a candidate threshold
+				if leaves, ok := tableOperandLeaves(p, fd, other); ok {
+					for _, l := range leaves {
+						r := f64(l)
+						consts[r.RatString()] = r
+					}
+					return true
+				}
 				okUses = false
-				add(false, "R15.region", "Rating.use", id, "the score is compared with a non-constant: undecided")
+				add(false, "R15.region", "Rating.use", id, "the score is compared with a value that is neither a constant nor an entry of a constant table: undecided")
 				return true
 			}
 			r := f64(toRat(v))
@@ -146,6 +156,7 @@ func (w *World) rulesRating(out *[]Obligation) {
 		var tbl []string
 		for _, rg := range regs {
 			env := newCEnv(p, nil)
+			env.loops = true
 			v, err := env.callFunc(fd, []Val{{K: VRat, R: rg.rep}}, fd)
 			inst := "Rating" + rg.name
 			if err != nil {
@@ -722,4 +733,102 @@ func init() {
 	registerGroup("rating", func(w *World, out *[]Obligation) { w.rulesRating(out) })
 	registerGroup("nomenclature", func(w *World, out *[]Obligation) { w.rulesNomenclature(out) })
 	registerGroup("len", func(w *World, out *[]Obligation) { w.rulesLen(out) })
+}
+
+// tableOperandLeaves: the operand is a selector/index chain (no arithmetic)
+// rooted at a package-level table of constants, or at the value variable of a
+// range statement of fd over such a chain. Its run-time value is then one of
+// the numeric leaves of the table, which are returned.
+func tableOperandLeaves(p *Pkg, fd *ast.FuncDecl, e ast.Expr) ([]*big.Rat, bool) {
+	info := p.Info
+	rangeSrc := map[types.Object]ast.Expr{}
+	ast.Inspect(fd.Body, func(n ast.Node) bool {
+		if rs, ok := n.(*ast.RangeStmt); ok && rs.Value != nil {
+			if o := identObj(info, rs.Value); o != nil {
+				rangeSrc[o] = rs.X
+			}
+		}
+		return true
+	})
+	seen := map[types.Object]bool{}
+	var root func(e ast.Expr) *types.Var
+	root = func(e ast.Expr) *types.Var {
+		switch x := e.(type) {
+		case *ast.ParenExpr:
+			return root(x.X)
+		case *ast.SelectorExpr:
+			if sel := info.Selections[x]; sel != nil && sel.Kind() == types.FieldVal {
+				return root(x.X)
+			}
+		case *ast.IndexExpr:
+			return root(x.X)
+		case *ast.Ident:
+			o := identObj(info, x)
+			if o == nil || seen[o] {
+				return nil
+			}
+			seen[o] = true
+			if src, ok := rangeSrc[o]; ok && !assignedIn(info, fd.Body, o) && !writtenThrough(info, fd.Body, o) {
+				return root(src)
+			}
+			if pv, ok := o.(*types.Var); ok && o.Parent() == p.P.Types.Scope() {
+				return pv
+			}
+		}
+		return nil
+	}
+	pv := root(e)
+	if pv == nil {
+		return nil, false
+	}
+	init := p.pkgVarInit(pv)
+	if init == nil {
+		return nil, false
+	}
+	lv, ok := p.listValue(init)
+	if !ok {
+		return nil, false
+	}
+	var out []*big.Rat
+	var walk func(v Val)
+	walk = func(v Val) {
+		switch v.K {
+		case VInt, VRat:
+			out = append(out, toRat(v))
+		case VList:
+			for _, c := range v.T {
+				walk(c)
+			}
+		case VStruct:
+			for _, c := range v.F {
+				walk(c)
+			}
+		}
+	}
+	walk(lv)
+	return out, len(out) > 0
+}
+
+// writtenThrough: some assignment's left-hand side mentions obj (x.f = …, x[i] = …)
+func writtenThrough(info *types.Info, body ast.Node, obj types.Object) bool {
+	found := false
+	ast.Inspect(body, func(n ast.Node) bool {
+		as, ok := n.(*ast.AssignStmt)
+		if !ok {
+			return true
+		}
+		for _, l := range as.Lhs {
+			if _, plain := l.(*ast.Ident); plain {
+				continue
+			}
+			ast.Inspect(l, func(m ast.Node) bool {
+				if id, ok := m.(*ast.Ident); ok && info.Uses[id] == obj {
+					found = true
+				}
+				return true
+			})
+		}
+		return true
+	})
+	return found
 }
